@@ -342,14 +342,7 @@ func (w *worker) runPath(res *HarnessResult) {
 					res.addInconclusive("internal: specAbort escaped")
 				default:
 					kind = "internal"
-					st := string(debug.Stack())
-					if i := strings.Index(st, "panic("); i >= 0 {
-						st = st[i:]
-					}
-					if len(st) > 1500 {
-						st = st[:1500]
-					}
-					res.addInconclusive(fmt.Sprintf("internal error: %v\n%s", r, st))
+					res.addInconclusive(fmt.Sprintf("internal error: %v [%s]", r, interpStack(string(debug.Stack()))))
 				}
 			}
 		}()
@@ -505,4 +498,28 @@ func (p *interpPool) close() {
 	for _, in := range p.ins {
 		in.sol.Close()
 	}
+}
+
+// interpStack condenses a Go stack trace to the interpreter functions involved (no addresses).
+func interpStack(st string) string {
+	var fns []string
+	for _, line := range strings.Split(st, "\n") {
+		if strings.HasPrefix(line, "main.") {
+			if i := strings.IndexByte(line, '('); i > 0 {
+				name := line[:i]
+				if j := strings.LastIndex(line, ")."); j > 0 {
+					if k := strings.IndexByte(line[j+2:], '('); k > 0 {
+						name = line[j+2 : j+2+k]
+					}
+				}
+				if len(fns) == 0 || fns[len(fns)-1] != name {
+					fns = append(fns, name)
+				}
+			}
+		}
+		if len(fns) >= 8 {
+			break
+		}
+	}
+	return strings.Join(fns, " < ")
 }
